@@ -71,8 +71,9 @@ theorem dstar_facts_j (target : MG Name) (ds : List Domain) (o c : Event) (hv : 
     rcases List.mem_append.1 hp with h | h
     · exact List.mem_append_right _ h
     · exact List.mem_append_left _ h
-  obtain ⟨D, dstar', dNames', _, h2', hDn, hfacts⟩ := line2C_ok target hwf o c
+  obtain ⟨lk, D, dstar', dNames', _, hrel, _, _, h2', hDn, hfacts⟩ := line2C_ok target hwf o c
     (fun p hp => hok p (List.mem_append_left _ hp)) (fun p hp => hok p (List.mem_append_right _ hp))
+    (fun p hp => (hplain p (List.mem_append_left _ hp)).1)
   rw [h2] at h2'
   simp only [Except.ok.injEq, Prod.mk.injEq] at h2'
   obtain ⟨rfl, rfl⟩ := h2'
@@ -85,7 +86,10 @@ theorem dstar_facts_j (target : MG Name) (ds : List Domain) (o c : Event) (hv : 
     rw [hin] at this
     exact hloop _ this
   · intro q hq i hi
-    obtain ⟨p, hp, hpn, hpv, _⟩ := hfacts.value q hq i hi
+    obtain ⟨p', hp', hpn', hpv', _⟩ := hfacts.value q hq i hi
+    obtain ⟨p, hp, hpn0, hpv0⟩ := hrel.of_lk p' hp'
+    have hpn : p.1.name = q.1.name := by rw [← hpn0, hpn']
+    have hpv : p.2 = some i := by rw [← hpv0, hpv']
     have hm : valueMismatch (c ++ o) = false := hvm
     unfold valueMismatch at hm
     simp only [List.any_eq_false] at hm
